@@ -99,6 +99,8 @@ pub fn gen(r: &mut Rng, _tier: &str, _i: usize, stats: &mut BTreeMap<String, u64
         pool.push(gen_text(r, vs, 0, nodiff_pct));
     }
     let flat = r.chance(1, 2);
+    // one flat pool in four holds unfolded expressions
+    let wo_pool = flat && r.chance(1, 4);
     let nsteps = 1 + r.below(if profile == "subs" { 3 } else { 6 });
     let mut steps = vec![];
     let all_names: Vec<String> = t.iter().map(|c| c.name.clone()).collect();
@@ -160,7 +162,7 @@ pub fn gen(r: &mut Rng, _tier: &str, _i: usize, stats: &mut BTreeMap<String, u64
         "hist\t{}\tnum\t{}\t{}\t{}",
         table_to_field(&t),
         pool.iter().map(|s| hex(s)).collect::<Vec<_>>().join(";"),
-        if flat { "F" } else { "D" },
+        if flat { if wo_pool { "W" } else { "F" } } else { "D" },
         steps.join("|")
     )
 }
@@ -218,12 +220,14 @@ pub fn run(f: &[&str]) -> String {
     set_table(&t);
     let texts: Vec<String> = f[2].split(';').map(unhex).collect();
     let texts: Vec<&'static str> = texts.into_iter().map(|s| &*Box::leak(s.into_boxed_str())).collect();
-    let flat = f[3] == "F";
+    let flat = f[3] == "F" || f[3] == "W";
+    let wo = f[3] == "W";
     let hist: Vec<String> = if f[4] == "-" { vec![] } else { f[4].split('|').map(|s| s.to_string()).collect() };
     crate::catch(move || {
         let mut pool: Vec<P<'static>> = vec![];
         for tx in &texts {
-            let p = if flat { F::parse(tx).map(P::Fl) } else { D::parse(tx).map(P::De) };
+            // W: the pool holds UNFOLDED flat expressions (parse_wo_compile)
+            let p = if wo { F::parse_wo_compile(tx).map(P::Fl) } else if flat { F::parse(tx).map(P::Fl) } else { D::parse(tx).map(P::De) };
             match p {
                 Ok(p) => pool.push(p),
                 Err(_) => return "pool=E".to_string(),
